@@ -99,6 +99,20 @@ def instances(tier, seed):
         via = [i for i in range(1, K + 1) if rnd.random() < 0.35]
         errs = {str(i): rnd.choice(["connErr", "nilErr"]) for i in range(1, K + 1) if i not in via and rnd.random() < 0.15}
         out.append(dict(id="s%d" % n, K=K, M=M, C=C, cancel=cancel, order=norm, via=via, errs=errs, settle=rnd.choice([0, 0, 0, 20, 60]), seed=seed))
+    # connections arriving through a source listener while Close lands: many small unsettled instances
+    for r in range(300 if tier == "quick" else 5000):
+        K = rnd.choice([2, 3])
+        o = ["I%d" % i for i in range(1, K + 1)] + ["A1", "C1"] + (["X"] if r % 3 == 0 else [])
+        rnd.shuffle(o)
+        cnt, norm = {}, []
+        for x in o:
+            if x == "X":
+                norm.append(x)
+                continue
+            cnt[x[0]] = cnt.get(x[0], 0) + 1
+            norm.append("%s%d" % (x[0], cnt[x[0]]))
+        n += 1
+        out.append(dict(id="v%d" % n, K=K, M=1, C=1, cancel=(r % 3 == 0), order=norm, via=list(range(1, K + 1)), errs={}, eachSrc=(r % 2 == 0), settle=0, seed=seed))
     return out
 
 
@@ -205,6 +219,7 @@ def _check(prop, tier, seed, replay, scr, t0):
     bad = _viol_instances(r["viol"])
     reported = 0
     known_hit = []
+    unreproduced = []
     for tr_id, clauses in list(bad.items())[:10]:
         inst = by_id[tr_id]
         kf = match_known(prop, clauses[0], inst, known, tr_id)
@@ -220,7 +235,10 @@ def _check(prop, tier, seed, replay, scr, t0):
         l2, p2, _ = run_driver_race(scr, again, "confirm", seed)
         r2 = monitor(scr, p2, len(l2))
         if not r2["viol"]:
-            raise Broken("violation %s of instance %s did not reproduce in 300 runs" % (clauses, tr_id))
+            # rare schedules may not come back in 300 re-runs: never reported; inconclusive only if nothing else reproduces
+            log("[%s] violation %s of instance %s did not reproduce in 300 runs" % (prop, clauses, tr_id))
+            unreproduced.append(tr_id)
+            continue
         print("VIOLATION property=%s replay=%s  # clauses=%s order=%s reproduced=%d/300" % (prop, rp, ",".join(sorted(set(clauses))), " ".join(inst["order"]), len(_viol_instances(r2["viol"]))))
         reported += 1
     if races:
@@ -279,4 +297,6 @@ def _check(prop, tier, seed, replay, scr, t0):
                    ["black-box recording: call/return/connection-close events stamped under one mutex; internal steps inferred by TLC",
                     "data races are decided by the Go race detector on the recorded executions, not by TLC",
                     "a history is judged by the C18 monitor of MuxTrace.tla; explanation by the full Mux.tla model is reported as drift only"])
+    if not reported and unreproduced:
+        raise Broken("violations of instances %s did not reproduce in 300 runs each: inconclusive" % unreproduced[:4])
     return 1 if reported else 0
